@@ -265,6 +265,10 @@ def subinterval_method(
         return reconstitute([func(sub[IND]) for IND in range(row_n)])
     elif subinterval_style == "endpoints":
         return reconstitute([endpoints(sub[i], func) for i in range(len(sub))])
+    else:
+        raise ValueError(
+            "subinterval_style must be chosen within {'direct', 'endpoints'}."
+        )
 
 
 def vec_cartesian_product(*arrays):
